@@ -26,7 +26,7 @@ impl Writer {
 //@extract src/writer.rs | impl<D: Distance> Writer<D> | insert_items_in_current_trees
 //@veciter tmp_descendant_to_write
 //@attr #[verifier::exec_allows_no_decreases_clause]
-//@hint before <<<let mut large_descendants = RoaringBitmap::new();>>>
+//@hint start <<<>>>
         let ghost v0 = wtxn.view(); let ghost i = self.index; let ghost m0 = tmap(v0, i); let ghost ins0 = to_insert@;
         let ghost cap = cap_of(options, self.dimensions); let ghost rs = roots@;
         let ghost mut done = Set::<u32>::empty();
@@ -79,6 +79,7 @@ impl Writer {
 //@hint before <<<let mut idx__0: usize = 0;>>>
             let ghost res = prs(tmp_descendant_to_write@, i);
             proof {
+                axiom_distinct_staging(tmp_descendant_to_write@, i);
                 lemma_pass_init(ma, rs, res, sel, cap);
                 assert(fresh_ok(ma, res)) by {
                     assert forall|j: int, x: u32| #![trigger res[j].al.contains(x)] 0 <= j < res.len() && res[j].al.contains(x) implies !ma.contains_key(x) by {
